@@ -73,8 +73,8 @@ CHECKS.update({
 CHECKS.update({
     "C18": dict(engine="iomodel", ref="§5 C18, §4 E8",
         technique="model-based property testing: generated read/write/vectored-write/flush/shutdown programs over a scripted faulty inner stream and over connected stream pairs, compared with a reference FIFO",
-        text="TokioIo in both directions and round trip, Rewind with arbitrary prefix, client/server Stream and TlsBraid::NoTls are driven over an inner stream that returns short transfers, Pending, errors and EOF at generated points; every outward result must match what the inner returned in that call and the delivered/accepted byte streams must equal the reference FIFO. The same programs run over in-process duplex pairs (deterministic) and real TCP/Unix pairs wrapped in Braid + Stream.",
-        note="Trusted base: wrapper adapters are pass-through (no buffering); real-socket legs use 2 s real-time guards whose expiry is inconclusive, never a violation. TLS record layers are exercised end to end in C12/C01, not here."),
+        text="TokioIo in both directions and round trip, Rewind with arbitrary prefix, client/server Stream and TlsBraid::NoTls are driven over an inner stream that returns short transfers, Pending, errors and EOF at generated points; every outward result must match what the inner returned in that call and the delivered/accepted byte streams must equal the reference FIFO. The same programs run over in-process duplex pairs (deterministic) and real TCP/Unix pairs wrapped in Braid + Stream. A TLS pair leg drives the client Stream::tls (lazy handshake) against the server-side TlsStream over Braid through duplex pipes of 16 B-64 KiB in virtual time with scripted read-buffer sizes: the decrypted streams must equal the reference FIFO in both directions and end-of-stream must follow (only) a shutdown.",
+        note="Trusted base: wrapper adapters are pass-through (no buffering); real-socket legs use 2 s real-time guards whose expiry is inconclusive, never a violation; rustls/tokio-rustls record layer in the TLS pair leg (pipes below a record header stall in the TLS stack itself and are excluded)."),
     "C19": dict(engine="timeout+poolsim+netsim", ref="§5 C19, §4 E9/E1/E2",
         technique="property-based testing in virtual time: exhaustive grid plus random (duration, inner completion, first-poll delay) cases for the Timeout layer; stateful pool histories with virtual-time advances so deadlines fire at every stage of a pooled request",
         text="Unit leg: result value, resolution instant (never later than the deadline), inner future dropped at resolution and never polled again. Pool leg: requests wrapped in the real Timeout inside poolsim histories; a request polled at or after its deadline must resolve, a timeout never fires early, no connection is handed to a request that already ended, and after the drain a probe to every origin is served. End-to-end leg: the real client stack with with_timeout against slow handlers in netsim (timeouts fire exactly at the deadline, completed requests are intact, a fresh client is served afterwards).",
